@@ -1,7 +1,7 @@
 """C11 — primitive distance functions: global minimum (structural clauses)."""
 from . import scopes
 from ..core.report import DOMAIN_D
-from ..rules import features, degree, roles, mirror, runmin, unpack, sides, onsegment, ericson, misc2
+from ..rules import features, degree, roles, mirror, runmin, unpack, sides, onsegment, ericson, misc2, siblings
 
 
 def run(idx, rep, tier):
@@ -29,4 +29,6 @@ def run(idx, rep, tier):
     onsegment.r_halfsize(idx, rep, [x.name for x in idx.lib_modules() if x.name.startswith("distance3d.distance")], floor=5)
     ericson.r_ericson(idx, rep)
     misc2.r_dupcond(idx, rep, [m.name for m in idx.lib_modules()], floor=3)
+    siblings.r_segsibling(idx, rep)
+    misc2.r_parallelsign(idx, rep, [x.name for x in idx.lib_modules() if x.name.startswith("distance3d.distance")])
     unpack.r_unpack(idx, rep, floor=45)
